@@ -26,7 +26,8 @@ import Glom.Generated.C06Facts
                   "impl_sizes":[…]}
                | {"op":"register","reg":r,"cls":n,"kw":[[op,tag]…],"exact":b}      (no "cls": an unrelated fresh class) … ]}
          a glom op may carry "arith": {"heap":[cell…],"target":Val,"spec":Sp,
-                                       "impl_out":{"ok":G}|{"err":cls},"impl_heap_after":[cell…],"impl_result_old":b}
+                                       "impl_out":{"ok":G}|{"err":cls},"impl_heap_after":[cell…],"impl_result_old":b,
+                                       "impl_spec_literal_in_result":b}
            heap / Val / cell: the wire format of Glom/Py/Json.lean (a bytearray is a "list" cell of class "bytearray");
            Sp: {"lit":Val} | {"t":[[opchar,Sp]…]} | {"seq":"list"|"tuple"|"set"|"fset","xs":[Sp…]} | {"dict":[[Sp,Sp]…]}
                | {"coalesce":[Sp…],"default":Sp|null} | {"call":name,"args":[Sp…]}  (a callable of the catalogue;
@@ -289,11 +290,13 @@ def arithCase (a : Json) : Except String (Bool × Bool × String) := do
   | .error _, .ok (.str _) => pure ()
   | _, _ => throw s!"impl_out: expected an object with ok or err, got {implOut.compress}"
   -- the property, on the implementation's observation
-  let obs : ArithObs := { heapAfter := after, resultOld := resOld }
+  let specLit ← a.getObjValAs? Bool "impl_spec_literal_in_result"
+  let obs : ArithObs := { heapAfter := after, resultOld := resOld, specLiteralInResult := specLit }
   if !sp.pureCalls then throw "an arith entry names a mutating callable: outside the property's domain"
   let holds := checkArith heap sp obs
   let why := if holds then "" else
-    (if after != heap then "an object that existed before the call (target / spec) was changed by evaluating a non-mutating spec"
+    (if specLit then "a list / dict / set literal of the spec is reachable from the result (the caller can change the spec through it)"
+     else if after != heap then "an object that existed before the call (target / spec) was changed by evaluating a non-mutating spec"
      else "the result of an operation that builds a new object is one of the objects that existed before the call")
   -- the model
   let out := evalAuto sp tgt heap
